@@ -4,13 +4,17 @@
 (* equal everywhere except at the holes, where the value must be in the    *)
 (* hole's class.                                                           *)
 (***************************************************************************)
-EXTENDS PushRand
+EXTENDS PushRand, Json, IOUtils
 
 HarnessInstr == {"VERIF.PROBE", "VERIF.SLEEP", "VERIF.NOOP*WITH*A*NAME*LONGER*THAN*ANY*BUILTIN*INSTRUCTION",
                  "VERIF.NÖÖP*MIT*UMLÄUTEN*ÜBER*DREIUNDZWANZIG*BYTES", "VERIF.ÄÖÜ*ÄÖÜ*ÄÖÜ*ÄÖÜ*ÄÖÜ*ÄÖÜ*ÄÖÜ*ÄÖÜ*ÄÖÜ*ÄÖÜ*ÄÖÜ*ÄÖÜ*NOOP", "VERIF.MyInstruction", "VERIFSQUARE", "verif.lower", "2VERIF", "424242", "4.25"}
 Registry == StackOpNames \cup ScalarInstr \cup CodeFamily \cup VectorInstr \cup ListInstr \cup IOInstr
             \cup GraphInstr \cup RandInstr \cup {"NOOP"}
-KnownInstr == Registry \cup HarnessInstr
+\* instructions the build under test registers beyond those the specification gives a meaning to (supplied by the harness
+\* from the build's own registry): they parse, print and are generated like every registered instruction; what a step of
+\* them does is not specified
+ExtraInstr == IF "PV_EXTRA_INSTR" \in DOMAIN IOEnv /\ IOEnv.PV_EXTRA_INSTR # "" THEN Range(JsonDeserialize(IOEnv.PV_EXTRA_INSTR)) ELSE {}
+KnownInstr == Registry \cup HarnessInstr \cup ExtraInstr
 
 ---------------------------------------------------------------------------
 (* matching a concrete state against a result *)
